@@ -220,6 +220,53 @@ Proof.
     apply enum_exact; [rewrite E; discriminate | exact He].
 Qed.
 
+(* ---------- array parameters read through ReadParameter ---------- *)
+Lemma list_bounds p s :
+  p_kind p = KList -> fields_match p s = true ->
+  exists a b, s_min s = Some a /\ a == p_min p /\ s_max s = Some b /\ b == p_max p.
+Proof.
+  intros Hk H. destruct (fields_match_parts _ _ H) as [_ [_ [Hmin [Hmax _]]]].
+  unfold f_min, f_max in *. rewrite Hk in *.
+  destruct (oQ_eqb_Some _ _ Hmin) as [a [Ha Ea]]. destruct (oQ_eqb_Some _ _ Hmax) as [b [Hb Eb]].
+  exists a, b. auto.
+Qed.
+
+(* for every first element and whatever follows it: allowed by the schema entry <-> the reader stores the list *)
+Lemma enforced_list_first p s :
+  p_kind p = KList -> fields_match p s = true ->
+  forall v rest, lstored (read_list p v rest) = schema_allows_elem s v.
+Proof.
+  intros Hk H v rest. destruct (list_bounds p s Hk H) as [a [b [Ha [Ea [Hb Eb]]]]].
+  unfold schema_allows_elem, read_list. rewrite Ha, Hb. cbn [ole oge].
+  rewrite (Qleb_compat a (p_min p) v v Ea (Qeq_refl v)), (Qleb_compat v v b (p_max p) (Qeq_refl v) Eb).
+  destruct (Qltb_spec v (p_min p)) as [H1|H1]; cbn [orb].
+  - apply Qleb_false in H1. rewrite H1. reflexivity.
+  - apply Qnot_lt_le in H1. apply Qleb_true in H1. rewrite H1. cbn [andb].
+    destruct (Qltb_spec (p_max p) v) as [H2|H2].
+    + apply Qleb_false in H2. rewrite H2. reflexivity.
+    + apply Qnot_lt_le in H2. apply Qleb_true in H2. rewrite H2. reflexivity.
+Qed.
+
+Lemma enforced_list_stored p s v rest :
+  p_kind p = KList -> fields_match p s = true ->
+  (schema_allows_elem s v = true -> read_list p v rest = LStore (v :: rest)) /\
+  (schema_allows_elem s v = false -> read_list p v rest = LKeep).
+Proof.
+  intros Hk H. pose proof (enforced_list_first p s Hk H v rest) as E. unfold read_list in *.
+  destruct (Qltb v (p_min p) || Qltb (p_max p) v); cbn in E; rewrite <- E; split; intros; try discriminate; reflexivity.
+Qed.
+
+(* the other elements are never checked: the element-wise reading of the published bounds is refuted *)
+Definition w_gradients : param :=
+  mkParam "Reservoir" "Gradients" KList None None 0 (500#1) [] "degC/m" "degC/m" "TEMP_GRADIENT" false "array" "[1/20,0/1,0/1,0/1]".
+Definition w_gradients_entry : sentry :=
+  mkS "Gradients" "array" "degC/m" "Reservoir" None "[1/20,0/1,0/1,0/1]" (Some 0) (Some (500#1)) [] "d".
+
+Lemma list_rest_refuted :
+  exists p s v w, p_kind p = KList /\ f_min p s = true /\ f_max p s = true /\ schema_allows_elem s v = true /\
+                  schema_allows_elem s w = false /\ read_list p v [w] = LStore [v; w].
+Proof. exists w_gradients, w_gradients_entry, (50#1), (9999#1). repeat split; vm_compute; reflexivity. Qed.
+
 (* ---------- committed = generated, result fields ---------- *)
 Lemma same_entries_sound a b :
   same_entries a b = true ->
